@@ -139,6 +139,9 @@ func CancelSelfCheck(c *Case, o *Observed) string {
 		}
 		seen[e] = true
 	}
+	if m := DirectiveErrorOnce(o); m != "" {
+		return m
+	}
 	if m := Conform(c, o); m != "" {
 		return "shape|" + m
 	}
